@@ -32,7 +32,12 @@ def _run(args):
         shutil.copy(os.path.join(tlc.SPEC_DIR, spec + ".tla"), os.path.join(wd.path, spec + ".tla"))
         cfg = wd.write(spec + ".cfg", TRACE_CFG)
         res = tlc.run_tlc(wd, spec, cfg, workers=1, timeout=timeout, heap="3g")
-    verdicts = {obj["tid"]: obj for obj in tlc.printed_json(res["out"])}
+    # where the trace specification has to guess something the log does not show (which of two connections' commits made an
+    # event visible) TLC follows every guess and prints one verdict per end state: a trace is explained if one of them explains it
+    verdicts = {}
+    for obj in tlc.printed_json(res["out"]):
+        if obj["tid"] not in verdicts or len(obj["bad"]) < len(verdicts[obj["tid"]]["bad"]):
+            verdicts[obj["tid"]] = obj
     stats = tlc.parse_stats(res["out"])
     ok = res["rc"] == 0 and stats is not None and len(verdicts) == ntraces
     return {"ok": ok, "verdicts": verdicts, "stats": stats, "out": res["out"] if not ok else ""}
